@@ -211,7 +211,11 @@ def tokenizer_crosscheck(V, tier, seed):
     rust = V.run_lines(V.VH, "c19", cases, shards=4)
     fails = []
     pages = 0
+    import re
+    # the two runs are separate processes: wall-clock timestamps of parse errors differ (visible only if markup was injected)
+    ts = re.compile(r"\d{4}-\d\d-\d\d(T|%20;)\d\d:\d\d:\d\d(\.\d+)?(%2b;00:00|%20;UTC)")
     for c, a, b in zip(cases, coq, rust):
+        a, b = ts.sub("TS", a), ts.sub("TS", b)
         keep = [t for t in b.split() if t.startswith("T=") or t in ("L-", "I-", "Lpanic", "Ipanic")]
         pages += sum(1 for t in b.split() if t in ("L200", "I200"))
         if a.split() != keep and len(fails) < 3:
